@@ -13,27 +13,27 @@ import (
 var verifXID = dhcpv4.TransactionID{0xa1, 0xb2, 0xc3, 0xd4}
 
 type verifMsg struct {
-	at                  int64
-	xid                 dhcpv4.TransactionID
-	op, hwLast, mt      uint8
-	acceptable, routed  bool // acceptable: own xid, BOOTREPLY, own hw, matcher accepts; routed: reaches the call's channel
+	at                 int64
+	xid                dhcpv4.TransactionID
+	op, hwLast, mt     uint8
+	acceptable, routed bool // acceptable: own xid, BOOTREPLY, own hw, matcher accepts; routed: reaches the call's channel
 }
 
 type verifCall struct {
-	conn        *verifConn
-	c           *Client
-	T           int64
-	tries       int
-	req         *dhcpv4.DHCPv4
-	dest        *net.UDPAddr
-	msgs        []verifMsg
-	ctxAt       int64 // -1: never
-	closeAt     int64 // -1: never
-	start, end  int64
-	resp        *dhcpv4.DHCPv4
-	err         error
-	ctxErr      error
-	budget      int64
+	conn       *verifConn
+	c          *Client
+	T          int64
+	tries      int
+	req        *dhcpv4.DHCPv4
+	dest       *net.UDPAddr
+	msgs       []verifMsg
+	ctxAt      int64 // -1: never
+	closeAt    int64 // -1: never
+	start, end int64
+	resp       *dhcpv4.DHCPv4
+	err        error
+	ctxErr     error
+	budget     int64
 }
 
 func verifSameXID(a, b dhcpv4.TransactionID) bool {
